@@ -176,6 +176,7 @@ class Plan:
         self.coo = self.c if self.c is not None else (case["z"] if self.kind == "heatmap" else self.z)
         self.lo = self.hi = None
         self.degenerate = False
+        self.log = bool(o.get("colormap_log"))
         if self.mode in ("cvar", "cpoints", "zmap-numeric", "heat"):
             zl = o.get("zlims") or [None, None]
             lo = o.get("vmin", zl[0])
@@ -188,6 +189,11 @@ class Plan:
             # a scale of width zero, or of a quantity without a finite value, defines no normalised value
             # (matplotlib's colour bar widens it in place): nothing is stated about colours then
             self.degenerate = self.lo == self.hi or (not ids and (self.user_lo is None or self.user_hi is None))
+
+    def norm(self):
+        """the normalisation the statement fixes: linear, or logarithmic with colormap_log"""
+        import matplotlib.colors as mc
+        return (mc.LogNorm if self.log else mc.Normalize)(self.lo / P.SCALE, self.hi / P.SCALE)
 
     def coo_ids(self):
         raw = self.raw
@@ -271,7 +277,7 @@ class Plan:
         else:
             s, _ = self.series_sel(sel, k)
             q = P.var_get(self.raw, self.c, s)
-        return hexkey(cm(float(mc.Normalize(self.lo / P.SCALE, self.hi / P.SCALE)(q / P.SCALE))))
+        return hexkey(cm(float(self.norm()(q / P.SCALE))))
 
     def expected_hist_values(self, sel, k):
         raw = self.raw
@@ -580,7 +586,7 @@ def oracle(plan, obs):
                     elif e["c"] and not plan.degenerate:
                         import matplotlib.colors as mc
                         cm = cmap_of(plan.cmap_name, plan.reverse)[0]
-                        nrm = mc.Normalize(plan.lo / P.SCALE, plan.hi / P.SCALE)
+                        nrm = plan.norm()
                         wantc = [hexkey(cm(float(nrm(c / P.SCALE)))) for c in e["c"]]
                         gotc = [hexkey(c) for c in s["colors"]]
                         if gotc != wantc:
@@ -667,7 +673,7 @@ def oracle(plan, obs):
             # colours: the chosen map at the normalised value (finite range of the data or vmin/vmax)
             import matplotlib.colors as mc
             cm = cmap_of(plan.cmap_name, plan.reverse)[0]
-            nrm = mc.Normalize(plan.lo / P.SCALE, plan.hi / P.SCALE)
+            nrm = plan.norm()
             wantc = [[hexkey(cm(float(nrm(c / P.SCALE)))) if c is not None else None for c in row] for row in wantm]
             gotc = [[hexkey(c) if wantm[a][b] is not None else None for b, c in enumerate(row)]
                     for a, row in enumerate(h["colors"])] if h["cells"] == wantm else wantc
@@ -795,6 +801,8 @@ def run_stream(c, cases, canon_names, preamble):
             c.violation(key, msg, {"case": case, "replay_hint": "harness.props.c17.replay"})
         if plan.mode == "cpoints" and plan.degenerate:
             c.count("not_compared_with_model", "scatter c= over a degenerate colour scale")
+        elif plan.log and plan.mode in ("cvar", "cpoints", "zmap-numeric", "heat"):
+            c.count("not_compared_with_model", "logarithmic colour scale (oracle only: the model's colour index is linear)")
         elif "error" not in obs and "read_error" not in obs:
             try:
                 pairs.append((model_expr(plan, obs, canon_names), observed_val(plan, obs)))
@@ -851,7 +859,7 @@ def run(tier, seed):
     c.notes.append("colorbar=True while nothing is colour-mapped (no z and no c, or an explicit colour list on a single "
                    "plot) is declined by the code with a ValueError naming the colour bar: counted as outcome "
                    "'declined', not a violation; colorbar=True with z and default colours colours the series by z")
-    c.notes.append("not covered: colormap_log, xjitter / yjitter (random), non-finite values inside c / y_err / x_err "
+    c.notes.append("not covered: xjitter / yjitter (random), non-finite values inside c / y_err / x_err "
                    "or coordinates, method='pcolor', scatter y_err / x_err (silently not drawn by the code), "
                    "padding (raises 'Axis limits cannot be NaN or Inf' as soon as the data holds an infinity)")
     c.assumptions = ["finite data values are distinct multiples of 1/4 of magnitude < 2^12, error values multiples of "
